@@ -11,10 +11,10 @@ never patched while other work is going on.  Equivalent to `git -C /repo apply` 
 """
 import json, os, subprocess, sys, time, shutil
 
-TR = "/tmp/trial"
+TR = os.environ.get("TRIAL_DIR", "/tmp/trial")
 
 def sh(cmd, **kw):
-    return subprocess.run(cmd, shell=isinstance(cmd, str), stdout=subprocess.PIPE, stderr=subprocess.STDOUT, text=True, **kw)
+    return subprocess.run(cmd, shell=isinstance(cmd, str), stdout=subprocess.PIPE, stderr=subprocess.STDOUT, text=True, errors="replace", **kw)
 
 def confirm(wt, which):
     d = os.path.join(wt, "mutations", which)
@@ -63,7 +63,11 @@ def setup_scratch():
         if n not in (".build", "replays", "evidence"):
             pth = os.path.join(ver, n)
             shutil.rmtree(pth) if os.path.isdir(pth) else os.remove(pth)
-    sh("git -C /verif archive HEAD | tar -x -C %s" % ver)
+    if os.environ.get("TRIAL_WORKING"):
+        # the working copy instead (for trying a strengthened check before committing it)
+        sh("rsync -a --exclude .build --exclude replays --exclude evidence --exclude .git --exclude target /verif/ %s/" % ver)
+    else:
+        sh("git -C /verif archive HEAD | tar -x -C %s" % ver)
     ct = os.path.join(ver, "n2v", "Cargo.toml")
     s = open(ct).read().replace('path = "/repo"', 'path = "%s"' % repo)
     open(ct, "w").write(s)
